@@ -33,6 +33,8 @@ var skeletonFuncs = []string{
 	"streamHTTP.SendHeader", "streamGRPC.SendHeader", "muxOptions.unary", "muxOptions.stream", "inPayload", "outPayload",
 	"isStreamError", "HTTPHandlerOption", "MuxHandleOption", "NewServer", "Mux.ServeHTTP",
 	"AddHealthz", "TLSCredsOption", "NewMux",
+	"webWriter.Write", "webWriter.WriteHeader", "webWriter.Flush", "newWebWriter", "isWebRequest",
+	"AsHTTPBodyReader", "AsHTTPBodyWriter", "streamGRPC.begin", "streamGRPC.close", "streamGRPC.isDone",
 }
 
 func leanIdent(fn string) string {
@@ -123,27 +125,19 @@ func skeleton(g *genCtx, fd *ast.FuncDecl) (conds []string, sites []string) {
 	return
 }
 
-// simpleStmts lists, in source order, every assignment, inc/dec, send, expression statement,
-// declaration, go and defer statement of fn (everything that is not control structure).
+// simpleStmts renders the body of fn — every statement in source order with its block
+// structure — as the lines of the pretty-printed body (go/printer normalises spacing; comments
+// are not part of the printed node).
 func simpleStmts(g *genCtx, fd *ast.FuncDecl) (out []string) {
-	ast.Inspect(fd.Body, func(n ast.Node) bool {
-		switch t := n.(type) {
-		case *ast.FuncLit:
-			out = append(out, "func-literal")
-			return true
-		case *ast.AssignStmt, *ast.IncDecStmt, *ast.SendStmt, *ast.ExprStmt, *ast.DeclStmt, *ast.GoStmt, *ast.DeferStmt:
-			src := nodeSrc(g, t.(ast.Node))
-			if i := strings.Index(src, "func("); i >= 0 {
-				src = src[:i] + "func(…)" // bodies are listed statement by statement
-			}
-			out = append(out, strings.Join(strings.Fields(src), " "))
+	for _, ln := range strings.Split(nodeSrc(g, fd.Body), "\n") {
+		ln = strings.Join(strings.Fields(ln), " ")
+		if ln != "" {
+			out = append(out, ln)
 		}
-		return true
-	})
+	}
 	return
 }
 
-// functions whose every simple statement is part of the tie (aliasing / ordering matters).
 var stmtFuncs = []string{
 	"state.clone", "path.clone", "state.removeHandler", "state.appendHandler", "state.addConnHandler", "path.delRule",
 	"Mux.registerService", "Mux.RegisterConn", "Mux.DropConn", "Mux.loadState", "Mux.storeState",
@@ -155,6 +149,10 @@ var stmtFuncs = []string{
 	"variable.index", "path.search", "path.match", "CodecProto.ReadNext", "CodecJSON.ReadNext", "codecHTTPBody.ReadNext", "params.set",
 	"Mux.serveGRPCWeb", "decodeTimeout", "lexPath",
 	"AddHealthz", "TLSCredsOption", "NewMux", "ruleSelector.getRules", "ruleSelector.setRules",
+	"webWriter.seeHeaders", "webWriter.writeTrailer", "webWriter.flushWithTrailer", "webWriter.Write", "webWriter.WriteHeader",
+	"webWriter.Flush", "newWebWriter", "isWebRequest",
+	"setOutgoingHeader", "setOutgoingTrailer", "newIncomingContext", "decodeBinHeader", "AsHTTPBodyReader", "AsHTTPBodyWriter",
+	"streamGRPC.begin", "streamGRPC.close", "streamGRPC.isDone",
 }
 
 // writerOrder: the order of lock / load / modify / store / unlock in a writer function
